@@ -2,18 +2,22 @@
 ID = "C02"
 LEVEL = "proof"
 LEVEL_TEXT = (
-    "Soundness and completeness are proved without bound for all grids, connection structures and cell pairs: the returned array starts at "
-    "the start, ends at the end, stays in the grid, moves only along connections, repeats no cell, is the one-cell path for a self query, and "
-    "is returned only if the end is reachable; ValueError is raised only if it is unreachable; no other exception escapes (KeyError/IndexError "
-    "obligations). The A* loop invariant (open/closed disjoint, predecessor structure with g decreasing by one, closed set edge-closed into the "
-    "discovered set, scores defined where read) is a sidecar contract on the real AST. OPTIMALITY (minimum number of steps) is NOT proved: it is "
-    "decided by the bounded stand-in (all graphs up to 2x3/3x2, sampled or all 4096 graphs on 3x3, all ordered pairs, random larger graphs, against BFS)."
+    "Soundness, completeness AND optimality are proved without bound for all grids, connection structures and cell pairs: the returned array starts at "
+    "the start, ends at the end, stays in the grid, moves only along connections, repeats no cell, is the one-cell path for a self query, "
+    "is returned only if the end is reachable, and has exactly dist(start,end)+1 cells (the minimum number of steps); ValueError is raised only if the "
+    "end is unreachable; no other exception escapes (KeyError/IndexError obligations). The A* loop invariants are sidecar contracts on the real AST: "
+    "open/closed disjoint, predecessor structure with g decreasing by one, closed set edge-closed into the discovered set, scores defined where read; "
+    "for optimality: g - g[start] >= dist on discovered cells, == dist on closed cells, every edge out of a closed cell relaxed, priority = g + Manhattan "
+    "distance. The step 'the cell with the least priority carries its true distance' uses one code-independent graph lemma (astar_cut: a shortest path leaves "
+    "any set through a tight edge, and the Manhattan heuristic is consistent along it), which is trusted and validated concretely against BFS on every run. "
+    "The bounded stand-in (all graphs up to 2x3/3x2, sampled or all 4096 graphs on 3x3, all ordered pairs, random larger graphs, against BFS) is kept as a cross-check."
 )
 LEVEL_NOTE = (
-    "Trusted: pyvc encoding; min(set, key=) and list(set) library contracts; lemma reach_induction; floats of the score tables as reals. "
-    "Optimality only bounded. Termination not proved."
+    "Trusted: pyvc encoding; min(set, key=) and list(set) library contracts; lemma reach_induction; the vocabulary dist (0 at the source, non-negative, "
+    "+1 at most across an edge; concrete reading = BFS) and the lemma astar_cut (textbook, validated on enumerated small graphs, not machine-checked); "
+    "floats of the score tables as reals. Termination not proved."
 )
-TECHNIQUE = "contract-based deductive verification (A* loop invariants over the real AST, z3) + bounded comparison with BFS for optimality"
+TECHNIQUE = "contract-based deductive verification (A* loop invariants incl. optimality over the real AST, z3/cvc5) + bounded comparison with BFS as cross-check"
 CONTRACT_MODULES = ["contracts.lattice_maze", "contracts.solver"]
 F = "maze_dataset/maze/lattice_maze.py"
 PROVE = [
